@@ -106,6 +106,7 @@ package log
 
 //@ func record
 //@   requires logger != nil
+//@   requires 0 <= skip && skip <= 1000000
 //@   let on = enable(Logger.GetLevel(logger), level)
 //@   modifies appended[logger], lastLevel[logger], lastTag[logger], lastFields[logger], lastFile[logger], lastLine[logger], lastTime[logger], lastCtxString[logger], lastCtxFields[logger], all(Event), calls(TimeNow), calls(StringFromContext), calls(FieldsFromContext)
 //@   ensures[C01,C10:disabled] !on ==> appended[logger] == old(appended[logger]) && calls(TimeNow) == old(calls(TimeNow)) && calls(StringFromContext) == old(calls(StringFromContext)) && calls(FieldsFromContext) == old(calls(FieldsFromContext))
@@ -118,3 +119,155 @@ package log
 //@   ensures[C10:ctx-fields-default] on && FieldsFromContext == nil ==> lastCtxFields[logger] == nil && calls(FieldsFromContext) == old(calls(FieldsFromContext))
 //@   ensures[C11:caller] on && enableCaller && deep(up($frame, skip + 1)) ==> lastFile[logger] == frame_file(up($frame, skip + 1)) && lastLine[logger] == frame_line(up($frame, skip + 1))
 //@   ensures[C11:no-caller] on && !enableCaller ==> lastFile[logger] == "" && lastLine[logger] == 0
+
+// ---- the 15 entry points: each emits at exactly its own level, once, iff the serving logger enables it ----
+
+//@ func Msgf
+//@   modifies nothing
+//@   ensures[C01,C07:key] result.Key == "msg"
+
+//@ func String
+//@   modifies nothing
+//@   ensures[C01,C07:string-field] result.Key == key && result.Type == ValueTypeString && result.Num == len(val)
+
+//@ func Trace
+//@   requires tag != nil
+//@   requires fn != nil
+//@   let l = loggerOf(tag)
+//@   let on = enable(Logger.GetLevel(l), TraceLevel)
+//@   modifies appended[l], lastLevel[l], lastTag[l], lastFields[l], lastFile[l], lastLine[l], lastTime[l], lastCtxString[l], lastCtxFields[l], all(Event), calls(TimeNow), calls(StringFromContext), calls(FieldsFromContext), calls(fn)
+//@   ensures[C01:own-level] on ==> appended[l] == old(appended[l]) + 1 && lastLevel[l] == TraceLevel && lastTag[l] == tag.tag
+//@   ensures[C01,C10:disabled] !on ==> appended[l] == old(appended[l]) && calls(TimeNow) == old(calls(TimeNow)) && calls(StringFromContext) == old(calls(StringFromContext)) && calls(FieldsFromContext) == old(calls(FieldsFromContext))
+//@   ensures[C10:lazy-once] calls(fn) == old(calls(fn)) + (on ? 1 : 0)
+//@   ensures[C10:lazy-result] on ==> lastFields[l] == ret(fn, calls(fn))
+//@   ensures[C11:caller] on && enableCaller && deep(up($frame, 1)) ==> lastFile[l] == frame_file(up($frame, 1)) && lastLine[l] == frame_line(up($frame, 1))
+
+//@ func Tracef
+//@   requires tag != nil
+//@   let l = loggerOf(tag)
+//@   let on = enable(Logger.GetLevel(l), TraceLevel)
+//@   modifies appended[l], lastLevel[l], lastTag[l], lastFields[l], lastFile[l], lastLine[l], lastTime[l], lastCtxString[l], lastCtxFields[l], all(Event), calls(TimeNow), calls(StringFromContext), calls(FieldsFromContext), elems(Field)
+//@   ensures[C01:own-level] on ==> appended[l] == old(appended[l]) + 1 && lastLevel[l] == TraceLevel && lastTag[l] == tag.tag
+//@   ensures[C01,C10:disabled] !on ==> appended[l] == old(appended[l]) && calls(TimeNow) == old(calls(TimeNow)) && calls(StringFromContext) == old(calls(StringFromContext)) && calls(FieldsFromContext) == old(calls(FieldsFromContext))
+//@   ensures[C11:caller] on && enableCaller && deep(up($frame, 1)) ==> lastFile[l] == frame_file(up($frame, 1)) && lastLine[l] == frame_line(up($frame, 1))
+
+//@ func Debug
+//@   requires tag != nil
+//@   requires fn != nil
+//@   let l = loggerOf(tag)
+//@   let on = enable(Logger.GetLevel(l), DebugLevel)
+//@   modifies appended[l], lastLevel[l], lastTag[l], lastFields[l], lastFile[l], lastLine[l], lastTime[l], lastCtxString[l], lastCtxFields[l], all(Event), calls(TimeNow), calls(StringFromContext), calls(FieldsFromContext), calls(fn)
+//@   ensures[C01:own-level] on ==> appended[l] == old(appended[l]) + 1 && lastLevel[l] == DebugLevel && lastTag[l] == tag.tag
+//@   ensures[C01,C10:disabled] !on ==> appended[l] == old(appended[l]) && calls(TimeNow) == old(calls(TimeNow)) && calls(StringFromContext) == old(calls(StringFromContext)) && calls(FieldsFromContext) == old(calls(FieldsFromContext))
+//@   ensures[C10:lazy-once] calls(fn) == old(calls(fn)) + (on ? 1 : 0)
+//@   ensures[C10:lazy-result] on ==> lastFields[l] == ret(fn, calls(fn))
+//@   ensures[C11:caller] on && enableCaller && deep(up($frame, 1)) ==> lastFile[l] == frame_file(up($frame, 1)) && lastLine[l] == frame_line(up($frame, 1))
+
+//@ func Debugf
+//@   requires tag != nil
+//@   let l = loggerOf(tag)
+//@   let on = enable(Logger.GetLevel(l), DebugLevel)
+//@   modifies appended[l], lastLevel[l], lastTag[l], lastFields[l], lastFile[l], lastLine[l], lastTime[l], lastCtxString[l], lastCtxFields[l], all(Event), calls(TimeNow), calls(StringFromContext), calls(FieldsFromContext), elems(Field)
+//@   ensures[C01:own-level] on ==> appended[l] == old(appended[l]) + 1 && lastLevel[l] == DebugLevel && lastTag[l] == tag.tag
+//@   ensures[C01,C10:disabled] !on ==> appended[l] == old(appended[l]) && calls(TimeNow) == old(calls(TimeNow)) && calls(StringFromContext) == old(calls(StringFromContext)) && calls(FieldsFromContext) == old(calls(FieldsFromContext))
+//@   ensures[C11:caller] on && enableCaller && deep(up($frame, 1)) ==> lastFile[l] == frame_file(up($frame, 1)) && lastLine[l] == frame_line(up($frame, 1))
+
+//@ func Info
+//@   requires tag != nil
+//@   let l = loggerOf(tag)
+//@   let on = enable(Logger.GetLevel(l), InfoLevel)
+//@   modifies appended[l], lastLevel[l], lastTag[l], lastFields[l], lastFile[l], lastLine[l], lastTime[l], lastCtxString[l], lastCtxFields[l], all(Event), calls(TimeNow), calls(StringFromContext), calls(FieldsFromContext)
+//@   ensures[C01:own-level] on ==> appended[l] == old(appended[l]) + 1 && lastLevel[l] == InfoLevel && lastTag[l] == tag.tag && lastFields[l] == fields
+//@   ensures[C01,C10:disabled] !on ==> appended[l] == old(appended[l]) && calls(TimeNow) == old(calls(TimeNow)) && calls(StringFromContext) == old(calls(StringFromContext)) && calls(FieldsFromContext) == old(calls(FieldsFromContext))
+//@   ensures[C11:caller] on && enableCaller && deep(up($frame, 1)) ==> lastFile[l] == frame_file(up($frame, 1)) && lastLine[l] == frame_line(up($frame, 1))
+
+//@ func Infof
+//@   requires tag != nil
+//@   let l = loggerOf(tag)
+//@   let on = enable(Logger.GetLevel(l), InfoLevel)
+//@   modifies appended[l], lastLevel[l], lastTag[l], lastFields[l], lastFile[l], lastLine[l], lastTime[l], lastCtxString[l], lastCtxFields[l], all(Event), calls(TimeNow), calls(StringFromContext), calls(FieldsFromContext), elems(Field)
+//@   ensures[C01:own-level] on ==> appended[l] == old(appended[l]) + 1 && lastLevel[l] == InfoLevel && lastTag[l] == tag.tag
+//@   ensures[C01,C10:disabled] !on ==> appended[l] == old(appended[l]) && calls(TimeNow) == old(calls(TimeNow)) && calls(StringFromContext) == old(calls(StringFromContext)) && calls(FieldsFromContext) == old(calls(FieldsFromContext))
+//@   ensures[C11:caller] on && enableCaller && deep(up($frame, 1)) ==> lastFile[l] == frame_file(up($frame, 1)) && lastLine[l] == frame_line(up($frame, 1))
+
+//@ func Warn
+//@   requires tag != nil
+//@   let l = loggerOf(tag)
+//@   let on = enable(Logger.GetLevel(l), WarnLevel)
+//@   modifies appended[l], lastLevel[l], lastTag[l], lastFields[l], lastFile[l], lastLine[l], lastTime[l], lastCtxString[l], lastCtxFields[l], all(Event), calls(TimeNow), calls(StringFromContext), calls(FieldsFromContext)
+//@   ensures[C01:own-level] on ==> appended[l] == old(appended[l]) + 1 && lastLevel[l] == WarnLevel && lastTag[l] == tag.tag && lastFields[l] == fields
+//@   ensures[C01,C10:disabled] !on ==> appended[l] == old(appended[l]) && calls(TimeNow) == old(calls(TimeNow)) && calls(StringFromContext) == old(calls(StringFromContext)) && calls(FieldsFromContext) == old(calls(FieldsFromContext))
+//@   ensures[C11:caller] on && enableCaller && deep(up($frame, 1)) ==> lastFile[l] == frame_file(up($frame, 1)) && lastLine[l] == frame_line(up($frame, 1))
+
+//@ func Warnf
+//@   requires tag != nil
+//@   let l = loggerOf(tag)
+//@   let on = enable(Logger.GetLevel(l), WarnLevel)
+//@   modifies appended[l], lastLevel[l], lastTag[l], lastFields[l], lastFile[l], lastLine[l], lastTime[l], lastCtxString[l], lastCtxFields[l], all(Event), calls(TimeNow), calls(StringFromContext), calls(FieldsFromContext), elems(Field)
+//@   ensures[C01:own-level] on ==> appended[l] == old(appended[l]) + 1 && lastLevel[l] == WarnLevel && lastTag[l] == tag.tag
+//@   ensures[C01,C10:disabled] !on ==> appended[l] == old(appended[l]) && calls(TimeNow) == old(calls(TimeNow)) && calls(StringFromContext) == old(calls(StringFromContext)) && calls(FieldsFromContext) == old(calls(FieldsFromContext))
+//@   ensures[C11:caller] on && enableCaller && deep(up($frame, 1)) ==> lastFile[l] == frame_file(up($frame, 1)) && lastLine[l] == frame_line(up($frame, 1))
+
+//@ func Error
+//@   requires tag != nil
+//@   let l = loggerOf(tag)
+//@   let on = enable(Logger.GetLevel(l), ErrorLevel)
+//@   modifies appended[l], lastLevel[l], lastTag[l], lastFields[l], lastFile[l], lastLine[l], lastTime[l], lastCtxString[l], lastCtxFields[l], all(Event), calls(TimeNow), calls(StringFromContext), calls(FieldsFromContext)
+//@   ensures[C01:own-level] on ==> appended[l] == old(appended[l]) + 1 && lastLevel[l] == ErrorLevel && lastTag[l] == tag.tag && lastFields[l] == fields
+//@   ensures[C01,C10:disabled] !on ==> appended[l] == old(appended[l]) && calls(TimeNow) == old(calls(TimeNow)) && calls(StringFromContext) == old(calls(StringFromContext)) && calls(FieldsFromContext) == old(calls(FieldsFromContext))
+//@   ensures[C11:caller] on && enableCaller && deep(up($frame, 1)) ==> lastFile[l] == frame_file(up($frame, 1)) && lastLine[l] == frame_line(up($frame, 1))
+
+//@ func Errorf
+//@   requires tag != nil
+//@   let l = loggerOf(tag)
+//@   let on = enable(Logger.GetLevel(l), ErrorLevel)
+//@   modifies appended[l], lastLevel[l], lastTag[l], lastFields[l], lastFile[l], lastLine[l], lastTime[l], lastCtxString[l], lastCtxFields[l], all(Event), calls(TimeNow), calls(StringFromContext), calls(FieldsFromContext), elems(Field)
+//@   ensures[C01:own-level] on ==> appended[l] == old(appended[l]) + 1 && lastLevel[l] == ErrorLevel && lastTag[l] == tag.tag
+//@   ensures[C01,C10:disabled] !on ==> appended[l] == old(appended[l]) && calls(TimeNow) == old(calls(TimeNow)) && calls(StringFromContext) == old(calls(StringFromContext)) && calls(FieldsFromContext) == old(calls(FieldsFromContext))
+//@   ensures[C11:caller] on && enableCaller && deep(up($frame, 1)) ==> lastFile[l] == frame_file(up($frame, 1)) && lastLine[l] == frame_line(up($frame, 1))
+
+//@ func Panic
+//@   requires tag != nil
+//@   let l = loggerOf(tag)
+//@   let on = enable(Logger.GetLevel(l), PanicLevel)
+//@   modifies appended[l], lastLevel[l], lastTag[l], lastFields[l], lastFile[l], lastLine[l], lastTime[l], lastCtxString[l], lastCtxFields[l], all(Event), calls(TimeNow), calls(StringFromContext), calls(FieldsFromContext)
+//@   ensures[C01:own-level] on ==> appended[l] == old(appended[l]) + 1 && lastLevel[l] == PanicLevel && lastTag[l] == tag.tag && lastFields[l] == fields
+//@   ensures[C01,C10:disabled] !on ==> appended[l] == old(appended[l]) && calls(TimeNow) == old(calls(TimeNow)) && calls(StringFromContext) == old(calls(StringFromContext)) && calls(FieldsFromContext) == old(calls(FieldsFromContext))
+//@   ensures[C11:caller] on && enableCaller && deep(up($frame, 1)) ==> lastFile[l] == frame_file(up($frame, 1)) && lastLine[l] == frame_line(up($frame, 1))
+
+//@ func Panicf
+//@   requires tag != nil
+//@   let l = loggerOf(tag)
+//@   let on = enable(Logger.GetLevel(l), PanicLevel)
+//@   modifies appended[l], lastLevel[l], lastTag[l], lastFields[l], lastFile[l], lastLine[l], lastTime[l], lastCtxString[l], lastCtxFields[l], all(Event), calls(TimeNow), calls(StringFromContext), calls(FieldsFromContext), elems(Field)
+//@   ensures[C01:own-level] on ==> appended[l] == old(appended[l]) + 1 && lastLevel[l] == PanicLevel && lastTag[l] == tag.tag
+//@   ensures[C01,C10:disabled] !on ==> appended[l] == old(appended[l]) && calls(TimeNow) == old(calls(TimeNow)) && calls(StringFromContext) == old(calls(StringFromContext)) && calls(FieldsFromContext) == old(calls(FieldsFromContext))
+//@   ensures[C11:caller] on && enableCaller && deep(up($frame, 1)) ==> lastFile[l] == frame_file(up($frame, 1)) && lastLine[l] == frame_line(up($frame, 1))
+
+//@ func Fatal
+//@   requires tag != nil
+//@   let l = loggerOf(tag)
+//@   let on = enable(Logger.GetLevel(l), FatalLevel)
+//@   modifies appended[l], lastLevel[l], lastTag[l], lastFields[l], lastFile[l], lastLine[l], lastTime[l], lastCtxString[l], lastCtxFields[l], all(Event), calls(TimeNow), calls(StringFromContext), calls(FieldsFromContext)
+//@   ensures[C01:own-level] on ==> appended[l] == old(appended[l]) + 1 && lastLevel[l] == FatalLevel && lastTag[l] == tag.tag && lastFields[l] == fields
+//@   ensures[C01,C10:disabled] !on ==> appended[l] == old(appended[l]) && calls(TimeNow) == old(calls(TimeNow)) && calls(StringFromContext) == old(calls(StringFromContext)) && calls(FieldsFromContext) == old(calls(FieldsFromContext))
+//@   ensures[C11:caller] on && enableCaller && deep(up($frame, 1)) ==> lastFile[l] == frame_file(up($frame, 1)) && lastLine[l] == frame_line(up($frame, 1))
+
+//@ func Fatalf
+//@   requires tag != nil
+//@   let l = loggerOf(tag)
+//@   let on = enable(Logger.GetLevel(l), FatalLevel)
+//@   modifies appended[l], lastLevel[l], lastTag[l], lastFields[l], lastFile[l], lastLine[l], lastTime[l], lastCtxString[l], lastCtxFields[l], all(Event), calls(TimeNow), calls(StringFromContext), calls(FieldsFromContext), elems(Field)
+//@   ensures[C01:own-level] on ==> appended[l] == old(appended[l]) + 1 && lastLevel[l] == FatalLevel && lastTag[l] == tag.tag
+//@   ensures[C01,C10:disabled] !on ==> appended[l] == old(appended[l]) && calls(TimeNow) == old(calls(TimeNow)) && calls(StringFromContext) == old(calls(StringFromContext)) && calls(FieldsFromContext) == old(calls(FieldsFromContext))
+//@   ensures[C11:caller] on && enableCaller && deep(up($frame, 1)) ==> lastFile[l] == frame_file(up($frame, 1)) && lastLine[l] == frame_line(up($frame, 1))
+
+//@ func Record
+//@   requires tag != nil
+//@   requires 0 <= skip && skip <= 1000000
+//@   let l = loggerOf(tag)
+//@   let on = enable(Logger.GetLevel(l), level)
+//@   modifies appended[l], lastLevel[l], lastTag[l], lastFields[l], lastFile[l], lastLine[l], lastTime[l], lastCtxString[l], lastCtxFields[l], all(Event), calls(TimeNow), calls(StringFromContext), calls(FieldsFromContext)
+//@   ensures[C01:own-level] on ==> appended[l] == old(appended[l]) + 1 && lastLevel[l] == level && lastTag[l] == tag.tag && lastFields[l] == fields
+//@   ensures[C01,C10:disabled] !on ==> appended[l] == old(appended[l]) && calls(TimeNow) == old(calls(TimeNow)) && calls(StringFromContext) == old(calls(StringFromContext)) && calls(FieldsFromContext) == old(calls(FieldsFromContext))
+//@   ensures[C11:caller] on && enableCaller && deep(up($frame, skip)) ==> lastFile[l] == frame_file(up($frame, skip)) && lastLine[l] == frame_line(up($frame, skip))
